@@ -10,7 +10,6 @@ while [ ! -e .cache/seedq.stop ]; do
     [ -e ".cache/seedq.running.$n" ] && continue
     [ -e ".cache/seedq.hold.$n" ] && continue
     touch ".cache/seedq.running.$n"
-    rm -rf /tmp/c[0-9][0-9]-* 2>/dev/null
     python3 harness/eval_seed.py "$d" "$n" > ".cache/logs/seed-$n.log" 2>&1
     echo "$(date +%H:%M) $n done: $(tr -d '\n' < .cache/logs/seed-$n.log | tail -c 400)" >> .cache/logs/seedq.log
     did=1
